@@ -29,7 +29,7 @@ from . import packages as pk
 
 PID = 'C19'
 # a reader that never reaches the end of a truncated file must not stall the check: a case normally takes < 20 s
-CASE_TIMEOUT = 90
+CASE_TIMEOUT = 150
 RULE = ('cases = one fit output file each (kind fitter/direct, 1..4 records, stored predicted fluxes all/none/mixed, '
         'a share written by sedfitter.fit() itself from a data file, record sizes varied by keep() including records with zero kept fits at the first / a middle / the last position and '
         'consecutively); every case cuts its file at every offset (thorough); quick: every offset '
@@ -42,13 +42,14 @@ REQUIRED_BRANCHES = ['open_error', 'iter_error', 'end_at_record_boundary', 'end_
                      'model_id_exceeds_kept_count', 'later_names_longer', 'record_unusual_dtypes',
                      'lifecycle_twice_keep', 'lifecycle_peek', 'lifecycle_partial', 'lifecycle_after_error', 'reader_keyword_mode',
                      'records_via_copy', 'write_after_refused_write',
+                     'chi2_not_ascending', 'chi2_tied', 'chi2_nan', 'names_leading_blanks', 'names_trailing_blanks',
                      'yielded_1', 'yielded_2', 'yielded_3',
                      'zero_fit_first', 'zero_fit_middle', 'zero_fit_last', 'zero_fit_consecutive', 'complete_file']
 ASSUMPTIONS = ['CPython\'s unpickler is a deterministic function of the bytes it consumes (values are not modelled, only framing)',
                'the pickles are protocol 2 as written by FitInfoFile.write (opcode table of protocols 0-2)']
 EXHAUSTIVE = {'quick': False, 'thorough': True}
 TRUSTED_EXTRA = ['os.truncate on a copy of the written file reproduces a crash at that byte']
-N = {'quick': 48, 'thorough': 200}
+N = {'quick': 48, 'thorough': 120}
 SMALL_REC = 3000      # quick: files whose record part is at most this long are cut at every offset inside the records
 NOPS = 150            # quick: sampled opcode boundaries inside the records of a file that is not cut at every offset
 NBIG = 5000           # fits in the "big" record (more than any plausible per-pickle chunk size such as 4096)
@@ -168,6 +169,22 @@ def gen_case(rng, directed=None):
                 flags=[rng.choice([0, 1, 2, 3, 4, 9]) for _ in range(nb)],
                 source_name='s%d%s' % (i, '_' * rng.randint(0, 25)),
                 fluxes=_flux_rows(rng, nm, nb)))
+        for r in case['recs']:
+            u = rng.random()
+            if u < 0.3 and len(r['chi2']) > 1:
+                # a hand-assembled / merged record: chi2 not ascending, with ties; write() accepts it as it is
+                r['unsorted'] = True
+                vals = [nice(rng, 0.1, 1e3, 3) for _ in range(max(1, len(r['chi2']) // 2))]
+                r['chi2'] = [rng.choice(vals) for _ in r['chi2']]
+                if sorted(r['chi2']) == r['chi2']:
+                    r['chi2'] = r['chi2'][::-1] if r['chi2'][0] != r['chi2'][-1] else [r['chi2'][0] + 1.] + r['chi2'][1:]
+                if rng.random() < 0.4:
+                    r['chi2'][rng.randrange(len(r['chi2']))] = 'nan'
+            if rng.random() < 0.3:
+                # fixed-width names as Fortran tools write them: right-justified, or padded with trailing blanks
+                w = max(len(x) for x in r['names']) + rng.randint(1, 4)
+                r['names'] = [x.rjust(w) if rng.random() < 0.5 else x.ljust(w) for x in r['names']]
+                r['padded_names'] = True
         if case.get('exotic'):
             # representation classes: a large model grid of which few fits are kept (model_id values far above the number
             # of kept fits), names that are longer in later records than in the first, non-default dtypes
@@ -249,7 +266,7 @@ def produce(case, d):
     else:
         infos = [via_copy(info, case.get('via')) for info in build_infos(case, d)]
         write_file(infos, path)
-    return infos, [pickle.dumps(info, 2) for info in infos], path, infos[0].meta
+    return [plain(info) for info in infos], [pickle.dumps(info, 2) for info in infos], path, infos[0].meta
 
 
 def via_copy(info, via):
@@ -280,7 +297,7 @@ def write_history(case, path):
 
     def write(info):
         written.append(pickle.dumps(info, 2))
-        snaps.append(copy.deepcopy(info))
+        snaps.append(plain(info))
         fo.write(info)
     if case['mode'] == 'rewrite':
         r = case['rec']
@@ -310,7 +327,7 @@ def write_history(case, path):
                         pass
                     else:
                         written.append(pickle.dumps(other, 2))     # accepted after all: then it is a written record
-                        snaps.append(copy.deepcopy(other))
+                        snaps.append(plain(other))
                     info.meta = first_meta
                 write(info)
                 continue
@@ -437,7 +454,7 @@ def build_infos(case, d):
             else:
                 info = pk.make_fitinfo(r['names'], [_f(c) for c in r['chi2']], av=r['av'], sc=r['sc'], flags=r['flags'],
                                        source_name=r['source_name'], model_fluxes=r['fluxes'] if conv else None,
-                                       meta=(case['model_dir'], filters, ext))
+                                       sort=not r.get('unsorted'), meta=(case['model_dir'], filters, ext))
             _keep_zero(info, z)
             infos.append(info)
     return infos
@@ -611,25 +628,36 @@ def _num_equal(a, b):
     return a == b or (a != a and b != b)
 
 
-def same_record(got, written_obj, written_bytes):
-    """byte-identical re-pickle, or (fallback) field-wise equality, NaN-aware"""
+def _plain_value(v):
+    """a value as plain Python data, exact: type, dtype, shape and the raw bytes of an array (fixed-width strings keep
+    their blanks, NaN stays NaN bit for bit), the unit of a Quantity"""
+    if v is None:
+        return None
+    if isinstance(v, str):
+        return ('str', v)
+    if isinstance(v, np.ndarray) or hasattr(v, 'unit'):
+        a = np.asarray(v)
+        return (type(v).__name__ if not isinstance(v, np.memmap) else 'ndarray', str(getattr(v, 'unit', '')), a.dtype.str,
+                a.shape, np.ascontiguousarray(a).tobytes())
+    if isinstance(v, (float, int, np.floating, np.integer)):
+        return (type(v).__name__, np.float64(v).tobytes())
+    return ('other', repr(v))
+
+
+def plain(info):
+    """reference copy of a record made WITHOUT copy / deepcopy / pickle (all of which run __getstate__/__setstate__):
+    every field read directly from the live object at the moment it is written"""
+    s = info.source
+    return (type(info).__name__,
+            None if s is None else (type(s).__name__,) + tuple(_plain_value(getattr(s, k)) for k in ('name', 'x', 'y', 'valid', 'flux', 'error')),
+            tuple(_plain_value(getattr(info, k)) for k in ('av', 'sc', 'chi2', 'model_id', 'model_name', 'model_fluxes')))
+
+
+def same_record(got, written_plain, written_bytes=None):
+    """the yielded record holds exactly what the written record held, field by field (types, dtypes, shapes, bytes)"""
     try:
-        if pickle.dumps(got, 2) == written_bytes:
-            return True
-    except Exception:
-        return False
-    try:
-        if type(got) is not type(written_obj):
-            return False
-        s, w = got.source, written_obj.source
-        if type(s) is not type(w):
-            return False
-        if not (type(s.name) is type(w.name) and s.name == w.name and _num_equal(s.x, w.x) and _num_equal(s.y, w.y) and
-                _arr_equal(s.valid, w.valid) and _arr_equal(s.flux, w.flux) and _arr_equal(s.error, w.error)):
-            return False
-        return all(_arr_equal(getattr(got, k), getattr(written_obj, k))
-                   for k in ('av', 'sc', 'chi2', 'model_id', 'model_name', 'model_fluxes'))
-    except Exception:
+        return plain(got) == written_plain
+    except Exception:     # noqa
         return False
 
 
@@ -746,6 +774,19 @@ def sweep(case, with_model=True):
             branches.add('records_via_copy')
         if case.get('big') is not None:
             branches.add('big_record')
+        for r in case.get('recs', []) if case['kind'] == 'direct' else []:
+            if r.get('unsorted') and 'grid' not in r:
+                branches.add('chi2_not_ascending')
+                fin = [c for c in r['chi2'] if c != 'nan']
+                if len(set(fin)) < len(fin):
+                    branches.add('chi2_tied')
+                if 'nan' in r['chi2']:
+                    branches.add('chi2_nan')
+            if r.get('padded_names') and 'grid' not in r:
+                if any(x != x.lstrip() for x in r['names']):
+                    branches.add('names_leading_blanks')
+                if any(x != x.rstrip() for x in r['names']):
+                    branches.add('names_trailing_blanks')
         if case.get('exotic'):
             gr = [r for r in case['recs'] if 'grid' in r]
             if any(max(r['best_idx']) >= 256 and len(r['best_idx']) < 256 for r in gr):
